@@ -98,7 +98,7 @@ impl AnonymizePlugin {
     }
 
     fn ctrl_msgs_anon(&mut self, msg: &mut DltMessage) {
-        if msg.is_ctrl_response() {
+        if msg.is_ctrl_response() && !msg.is_verbose() {
             let mut args = msg.into_iter();
             let message_id_arg = args.next();
             let message_id = match message_id_arg {
